@@ -196,7 +196,7 @@ def stream_lcf(ctx, built=True, oracle=None, parts=("lcf", "extreme", "ecnt", "l
                 row = [seen_rows[0][0]] + [R.getrandbits(64) or 1 for _d in range(dims - 1)]; seen_rows.append(row); live.add(np.array(row, dtype=U64))
             zone = 0
         for step in range(nsteps):
-            for _k in range(zone if step == 0 else R.choice([1, 1, 1, 2])):
+            for _k in range(zone if step == 0 else R.choice([0, 1, 1, 2])):      # 0: the same entities asked about once more (another threshold / noise level)
                 row = [R.choice([0] + [R.getrandbits(64) or 1]) if R.random() < 0.1 else (R.getrandbits(64) or 1) for _d in range(dims)]
                 if dims >= 2 and seen_rows and (directed or R.random() < 0.4):      # new in the earlier id columns, already seen (or null) in a later one
                     d_ = R.randrange(1, dims); row[d_] = R.choice([0, R.choice(seen_rows)[d_]])
